@@ -57,3 +57,30 @@ TABLE.update({
          'note': NOTE + '; matplotlib is absent: the harness registers an empty stub module before importing quantum_computation (no repository change); cases with a variate within 1e-9 of a decision boundary are skipped', 'technique': 'runtime contract with captured randomness vs dense inverse-CDF oracle'},
 })
 NOT_YET = {}
+
+
+# additions of the second build session (DESIGN.md section 8.5)
+COMMON = (' Results are judged against the arguments as they were at call entry (arrays and list-valued options are frozen by the probe layer; '
+          'a call that rewrites them is reported); operands include trains with a history of library operations, aliased cores and integer dtype; '
+          'both tiers are seeded (VERIF_SEED) and every shard runs under an address-space cap.')
+EXTRA = {
+ 'C03': ' Trains with one ndarray object at several positions (rank-one / homogeneous chains) are driven through full and partial sweeps.',
+ 'C04': ' Per-bond max_rank lists must not be rewritten by the call (the request at call time is what the bounds are judged against).',
+ 'C05': ' svd/pinv with a sweep switched off are decided on input that is in exactly the gauge of the omitted sweep (measured); input-unchanged is reported under C05 itself.',
+ 'C07': ' max_rank is crossed with threshold in {0, 1e-12, default}; second calls on the same operator/guess objects with another (also in-place changed) right-hand side.',
+ 'C08': ' Options real / conv_eps, 1-3 deflation tensors of different ranks, size-1 modes, and a second target solved on the same objects.',
+ 'C09': ' Step-size lists with recurring values, adaptive runs whose first step exceeds the end time, precomputed op_hod, and second calls on the same operator object with another order / step size / in-place rescaled operator.',
+ 'C10': ' The same component arrays and initial state serve several calls (other scheme / step size); tmp_rank.',
+ 'C11': ' Order-1 trains and size-1 modes included; second calls with another step size; Krylov with normalisation.',
+ 'C12': ' Piecewise-homogeneous chains (equal lists on neighbouring cells/bonds with defect cells/bonds, orders up to 6), small integer dtypes of Ulam tables, second calls on the same lists.',
+ 'C13': ' Every constructor is also called for a neighbouring parameter set before and after the enumerated one (state kept between calls); chains up to order 12 in TT form.',
+ 'C14': ' Operations are called in random order on pristine copies of the function object; arrays handed out earlier must stay bitwise unchanged by later calls; evaluation points must not be modified.',
+ 'C15': ' Lattice data / exact zeros / integer-typed / tiny-scale data; HOCUR with list-valued ranks reused across data sets (list must stay untouched); give-ups of the fixed initial column choice on an all-zero block are recognised from a hook and not asserted.',
+ 'C16': ' The guess-unchanged clause is reported under C16 itself.',
+ 'C17': ' Each orthonormalisation-flag combination is driven on input that is in exactly the gauge of the omitted sweep only.',
+ 'C18': ' Position-wise ordering by the distance of the complex eigenvalue to 1; batches whose pairs share / repeat / exchange index sets; HOCUR batch == single calls.',
+ 'C19': ' Lattice data and data with exact zeros; second call on the same arrays with the other generator form / weighting; output_freq, max_rank, several thresholds.',
+ 'C20': ' Call sequences on one live state with single-qubit gates applied in place between samplings.',
+}
+for _k in TABLE:
+    TABLE[_k]['text'] = TABLE[_k]['text'] + EXTRA.get(_k, '') + COMMON
